@@ -17,7 +17,23 @@ def run_impl(tools, cases, workdir, timeout="30s"):
              timeout=3600)
     if p.returncode != 0:
         raise RuntimeError("vh l2 failed: " + p.stderr[-2000:])
-    return [json.loads(l) for l in open(opath)]
+    obs = [json.loads(l) for l in open(opath)]
+    # a time-out under load is not an observation of the code: every case that timed out runs again, alone
+    # (no repetitions, no other formatters), a few at a time and with a long limit, before it counts
+    late = [o["id"] for o in obs if o["kind"] == "timeout"]
+    if late and timeout != "300s":
+        byid = {c["id"]: c for c in cases}
+        again = [dict(byid[i], repeat=0, fmts=False) for i in late if i in byid]
+        json.dump(again, open(cpath + ".retry", "w"))
+        p = C.sh([tools.vh, "l2", "-cases", cpath + ".retry", "-out", opath + ".retry", "-shards", "4", "-timeout", "300s"],
+                 timeout=7200)
+        if p.returncode == 0:
+            redo = {}
+            for l in open(opath + ".retry"):
+                o = json.loads(l)
+                redo[o["id"]] = o
+            obs = [redo.get(o["id"], o) if o["kind"] == "timeout" else o for o in obs]
+    return obs
 
 
 def obs_term(o):
